@@ -124,6 +124,23 @@ def run(case, ctx):
         ("bound(Data).get_data(raw)", lambda: DP.DataPath(*parts, source_data=D).get_data(doc)),
         ("bound(raw).get_data(raw)", lambda: DP.DataPath(*parts, source_data=doc).get_data(doc)),
     ]
+    # the same path as a copy, and composed from two pieces with `/`
+    import copy as _copy
+    import pickle as _pickle
+    entries.append(("copy.copy(path)", lambda: _copy.copy(p).get_data(doc)))
+    entries.append(("copy.deepcopy(path)", lambda: _copy.deepcopy(p).get_data(doc)))
+    entries.append(("pickled path", lambda: _pickle.loads(_pickle.dumps(p)).get_data(doc)))
+    def _as(r):
+        # (a composed path is flagged non-concrete even when all its parts are primitives - section 6b, other
+        # observations - so it answers with a list; the SELECTION is what is compared)
+        if conc and type(r) is list:
+            return None if not r else (r[0] if len(r) == 1 else r)
+        return r
+    for k in sorted(x for x in {1, len(parts) // 2, len(parts) - 1} if 0 < x < len(parts)):
+        entries.append((f"DataPath(*parts[:{k}]) / DataPath(*parts[{k}:])",
+                        lambda k=k: _as((DP.DataPath(*parts[:k]) / DP.DataPath(*parts[k:])).get_data(doc))))
+    if len(parts) >= 2 and pterm["parts"][-1]["p"] != "prim":  # (`path / primitive` is not an operation the library offers)
+        entries.append(("path / last part", lambda: _as((DP.DataPath(*parts[:-1]) / parts[-1]).get_data(doc))))
     if pterm["parts"] and all(q["p"] == "prim" for q in pterm["parts"]):
         prims = [q["v"] for q in pterm["parts"]]
         entries.append(("Data.get(*primitives)", lambda: D.get(*prims)))
